@@ -73,7 +73,12 @@ def cases(draw):
     nsd = draw(st.sampled_from(NS_DICTS))
     if nsd is not None:
         cfg["namespaces_dict"] = nsd
-    return {"g": g, "cfg": cfg, "target": {"mode": "all"}, "thr": draw(st.sampled_from([0, 0, 0.5, 1 / 3, 1])), "channels": chans}
+    case = {"g": g, "cfg": cfg, "target": {"mode": "all"}, "thr": draw(st.sampled_from([0, 0, 0.5, 1 / 3, 1])), "channels": chans}
+    if draw(st.integers(0, 5)) == 0:
+        dd = draw(common.dups(g, type_only=True))
+        if dd and not common.restated_values(dict(case, dups=dd)):
+            case["dups"] = dd
+    return case
 
 
 def strategy(tier):
@@ -194,13 +199,18 @@ def check(case):
     nt = False
     kn = None
     base = {k: v for k, v in kw.items() if k != "raw_graph"}
+    # the statements of the document: the graph's triples plus re-stated typing statements (still the same graph; the reference
+    # run above read them too).  Re-stated VALUE statements are the known finding C01-DUPVALUE and are not generated here.
+    doc = common.doc_triples(case, triples)
+    if case.get("dups"):
+        labels.add("restated-typing-statements")
     with sut.tmpdir() as d:
         for idx, ch in enumerate(case["channels"]):
             ckw = dict(base)
             if "namespaces_dict" in ckw:
                 ckw["namespaces_dict"] = dict(ckw["namespaces_dict"])
             try:
-                ckw.update(channel_kwargs(ch, triples, d, idx))
+                ckw.update(channel_kwargs(ch, doc, d, idx))
             except Exception as e:      # rdflib cannot serialise this graph in that syntax: generator-side limitation
                 labels.add("discard-channel:serialise-" + ch["fmt"])
                 continue
